@@ -37,6 +37,9 @@ FIXED = [
     (2, "a", "", 1, "e.e.e.j_j"),
     (4, "a", "", 1, "e.e_e.e_e.e"),
     (4, "i", "", 1, "e.e.j_e.e_e.j"),
+    (4, "a", "", 1, "e.e.e_e"),           # 3-4 signals in one busy period (counter > 1), late producers
+    (4, "a", "", 1, "e.e.e.e_e_e"),
+    (2, "a", "", 1, "e.e_e_e.j"),
     (2, "a", "f", 1, "e.e_e.j"),
     (2, "i", "f", 1, "e.e_e.j"),
     (1, "a", "ff", 1, "e.e_e"),
@@ -53,12 +56,15 @@ FIXED = [
 PB = [
     (2, "i", "", 1, "e_e"),               # inline consumer inside producer 1, producer 2 in its exit window
     (2, "a", "", 1, "e_e"),               # asynchronous consumer
+    (2, "a", "", 1, "e.e_e"),             # counter above 1 (two signals in one busy period), then a late producer in the exit window
     (1, "a", "", 1, "e_e.j"),             # capacity 1, a producer that joins
     (2, "a", "f", 1, "e_e"),              # refused launch: roll-back CAS against the other producer's signal
     (2, "i", "f", 0, "e_e"),              # refused, nobody retries: next task / main thread resumes
     (2, "a", "", 1, "e.e"),               # one producer against its own consumer
 ]
 PB_THOROUGH = [
+    (4, "a", "", 1, "e.e.e_e"),           # three signals in one busy period + late producer
+    (2, "i", "", 1, "e_e.e"),
     (2, "a", "", 1, "e.e_e"),
     (1, "a", "", 1, "e.e_e.j"),
     (2, "i", "", 1, "e.e_e.j"),
@@ -111,7 +117,7 @@ def exec_key(ex, pb=None):
     return k
 
 
-PB_ARGS = {"quick": {"bound": 1, "max_execs": 150}, "thorough": {"bound": 2, "max_execs": 3000}}
+PB_ARGS = {"quick": {"bound": 1, "max_execs": 220}, "thorough": {"bound": 2, "max_execs": 3000}}
 
 
 def rerun(key):
@@ -182,7 +188,7 @@ def run(pid, tier, seed, replay=None):
         rprogs = [eq.gen_program(rng, big=not quick) for _ in range(12 if quick else 300)]
         e2, s2 = record(rprogs, (seed * 1000 + 1, seed * 1000 + (4 if quick else 9)), "mix", os.path.join(tr, pid + "_rand"), jobs=2)
         execs += e2
-        pbp = PB[:4] if quick else PB + PB_THOROUGH
+        pbp = PB[:5] if quick else PB + PB_THOROUGH
         e3, s3 = record(pbp, (1, 2), "pb", os.path.join(tr, pid + "_pb"), extra=["--pb-bound", str(PB_ARGS[tier]["bound"]), "--max-execs", str(PB_ARGS[tier]["max_execs"])], par=8)
         execs += e3
         for s in (s2, s3):
@@ -252,6 +258,52 @@ def run(pid, tier, seed, replay=None):
                     raise vlib.Broken("violation %s did not reproduce on re-execution of %s" % (what, json.dumps(key)))
             rp = vlib.save_replay(pid, "%s_%s_%d.json" % (name, what, xi), {"exec": key, "clause": what, "layer": name, "line": iss.line, "trace": ex[:400]})
             V.violation("%s violated on an execution of the real code (%s layer) params=%s seed=%s strategy=%s" % (what, name, json.dumps(key["params"]), key["seed"], key["strategy"]), rp)
+    # ---- drift-guided intensification: where the code no longer follows the L2 specification the conformance
+    # argument is gone, so the programs around the drift are explored much harder and judged by the L1 monitor alone
+    if V.drift and not replay and not V.violations:
+        dprogs, seenp = [], set()
+        for iss in results["L2"][1]:
+            if iss.kind == "rejected":
+                c = eq.cfg_of(execs[reps["L2"][iss.exec_index]][0]["params"])
+                pr = (c["cap"], c["mode"], "".join("f" if f else "o" for f in c["faults"]), int(c["retry"]), "_".join(".".join(t) for t in c["prog"]))
+                if pr not in seenp:
+                    seenp.add(pr)
+                    dprogs.append(pr)
+        for pr in PB + PB_THOROUGH:
+            if pr not in seenp:
+                seenp.add(pr)
+                dprogs.append(pr)
+        tr = os.path.join(vlib.BUILD, "traces")
+        big = {"bound": 2, "max_execs": 1200 if quick else 20000}
+        x1, _ = record(dprogs, (seed * 1000 + 500, seed * 1000 + 500 + (40 if quick else 600)), "mix", os.path.join(tr, pid + "_driftmix"), jobs=4)
+        x2, _ = record(dprogs, (1, 2), "pb", os.path.join(tr, pid + "_driftpb"), extra=["--pb-bound", str(big["bound"]), "--max-execs", str(big["max_execs"])], par=8)
+        xs = x1 + x2
+        V.extra["drift_guided_executions"] = len(xs)
+        seenh, keep, lines = set(), [], []
+        for i, ex in enumerate(xs):
+            ln = eq.monitor_lines(ex, i)
+            h = hashlib.md5(json.dumps([dict(x, xid=0) for x in ln], sort_keys=True).encode()).hexdigest()
+            if h not in seenh:
+                seenh.add(h)
+                keep.append(i)
+                lines.append(ln)
+        mon, moncfg = os.path.join(SPEC, "EQ_Mon.tla"), os.path.join(SPEC, "mc", "EQ_Mon.cfg")
+        acc, issues, st = vlib.check_traces(mon, moncfg, lines, pid + "_driftL1", 4)
+        log("C16: drift-guided: %d executions, %d distinct L1 traces, %d issues at %.1fs" % (len(xs), len(keep), len(issues), time.time() - V.t0))
+        for iss in issues:
+            ex = xs[keep[iss.exec_index]]
+            key = exec_key(ex, big)
+            if iss.kind == "rejected":
+                raise vlib.Broken("L1 monitor rejected a trace: %s" % iss.detail)
+            m = re.findall(r'bad = "(\w+)"', iss.detail)
+            what = m[-1] if m and m[-1] else iss.kind.split(":", 1)[1]
+            ex2 = rerun(key)
+            iss2 = vlib.check_traces(mon, moncfg, [eq.monitor_lines(ex2, 0)], pid + "_re_driftL1")[1] if ex2 else []
+            if not iss2:
+                raise vlib.Broken("violation %s did not reproduce on re-execution of %s" % (what, json.dumps(key)))
+            rp = vlib.save_replay(pid, "L1_%s_drift_%d.json" % (what, keep[iss.exec_index]), {"exec": key, "clause": what, "layer": "L1", "line": iss.line, "trace": ex[:400]})
+            V.violation("%s violated on an execution of the real code (L1 layer, drift-guided) params=%s seed=%s strategy=%s" % (what, json.dumps(key["params"]), key["seed"], key["strategy"]), rp)
+
     # witnesses of the known finding seen by the L1 monitor (execution ids)
     kn = sorted({int(x[1:]) for tagname, x in results["L1"][2]["pairs"] if tagname == "JoinBehindInflightPush" and x[1:].isdigit()})
     V.extra["known_witness_executions"] = len(kn)
